@@ -341,20 +341,6 @@ func (g *vfGen) genC05() {
 			}
 		}
 	}
-	// limits next to 2^32: the header buffer is sized by the limit, whatever arithmetic is used on the way
-	// (each such call allocates and clears a buffer of that size: two in the quick tier, the rest in the thorough one)
-	for k, lim := range []uint32{4294967295, 4294963201, 4294967294, 4294963200, 2147483648} {
-		in := []byte(`{"a":[1,2,3]}`)
-		g.emit(vfOp("reader", lim, in, "~", 0, -1))
-		g.emit(vfOp("walk", in, lim))
-		if k >= 2 && !g.thorough {
-			break
-		}
-		if g.thorough {
-			g.emit(vfOp("reader", lim, in, "1,2,3", 1, -1))
-			g.emit(vfOp("file", lim, in))
-		}
-	}
 	for _, w := range []string{"bytesadv", "stringsadv", "sectionadv", "fileadv"} {
 		for _, in := range [][]byte{[]byte("plain text after the envelope"), []byte("%PDF-1.4\n"), []byte("{\"a\":1}"), {}, {0, 1, 2}} {
 			for _, lim := range []int{0, 3072, 16, 5} {
